@@ -160,3 +160,18 @@ fn c10_rollsum_window_only_w3_p0_p4() {
 fn c10_rollsum_window_only_w3_p2_p4() {
     window_only_from_reset::<3, 2, 4, 6>();
 }
+
+/// C15: window sizes are u32 values from an untrusted dictionary (and any
+/// usize from the CLI's --hash-window): the arithmetic of `new` and of one
+/// `input` must not panic for any of them.
+#[kani::proof]
+#[kani::unwind(4)]
+fn c15_rollsum_arith_any_window() {
+    let w: usize = kani::any();
+    kani::assume(w >= 1 && w <= u32::MAX as usize);
+    let mut h = RollSum::new(w);
+    h.input(kani::any());
+    kani::cover!(w == 64);
+    kani::cover!(w == 20000);
+    std::mem::forget(h);
+}
